@@ -109,6 +109,17 @@ prop(
     level_note='Trusted: PyTables append / netCDF unlimited-dimension assignment models; third-party durability of flush/sync is assumed and exercised by the bounded crash check.',
 )
 
+prop(
+    "C02",
+    contract_modules=["contracts.c02"],
+    bcc="c02",
+    level="other",
+    claimed=False,
+    trusted=["numpy.basic-slicing", "numpy.array-model"],
+    assumptions=[],
+    explanation="",
+)
+
 # ---- stubs (filled in as the contracts are written) -------------------------------------------
 for _pid in ["C01", "C02", "C03", "C04", "C05", "C06", "C07", "C08", "C09", "C10", "C11", "C12", "C13", "C14",
              "C15", "C16", "C17", "C19", "C20"]:
